@@ -137,8 +137,8 @@ def b3(chk, p, rng):
             continue
         e = bench.run_batch(b, bidir=bool(k % 4 < 2), pick=k)
         if 'exc' in e:
-            chk.violation(f'B3|exception|meshV2|{ru.kind(b)}|inc={"/".join(ru.shape(r) for r in b["reqs"])}|'
-                          f'{e["exc"].split(":")[0]}', dict(batch=b, exception=e['exc'], traceback=e['tb']))
+            chk.violation(f'B3|exception|{e["exc"].split(":")[0]}|{e.get("where", "?")}',
+                              dict(network='meshV2', batch=b, exception=e['exc'], traceback=e['tb']))
             continue
         evs.append(e)
         meta.append(dict(b, info={}))
